@@ -45,6 +45,10 @@ func (c11) Gen(r *rand.Rand, tier string, run int) *core.Case {
 	c.Net.LateWrite = br.IntN(2) == 0
 	c.Net.CloseErr = []int{0, 0, 100}[br.IntN(3)]
 	c.Params["blocking_cb"] = br.IntN(2)
+	// a goroutine of the application registers one more disconnect callback
+	// and one more subscription handler at a moment of its own, which may be
+	// the very moment the connection is being lost
+	c.Params["late_reg"] = 1 + (j*7+block)%160
 	if block%5 == 4 {
 		// a block without transport faults: the application closes the
 		// client's endpoint itself, at a drawn moment
@@ -156,6 +160,9 @@ type c11state struct {
 	callsDone   chan struct{}
 	appClose    int64 // event sequence number at which the application closed the endpoint
 	lossKind    string
+	lateReg       int64 // a callback and a handler were registered at some moment of the run
+	lateDisc      int
+	lateSubClosed bool
 }
 
 func (c11) Run(c *core.Case, env *core.Env) {
@@ -192,6 +199,37 @@ func (c11) Run(c *core.Case, env *core.Env) {
 	st.mu.Lock()
 	st.regClient = zzsim.Seq()
 	st.mu.Unlock()
+	var lateWG sync.WaitGroup
+	defer lateWG.Wait()
+	if n := c.P("late_reg", 0); n > 0 {
+		lateWG.Add(1)
+		go func() {
+			defer lateWG.Done()
+			for j := 0; j < n; j++ {
+				zzsim.Yield("h.late-registration")
+			}
+			cl.OnDisconnect(func(error) {
+				st.mu.Lock()
+				st.lateDisc++
+				st.mu.Unlock()
+			})
+			_, events, err := cl.Subscribe(w.ServiceID, 1, SigTock)
+			if err != nil {
+				return
+			}
+			seq := zzsim.Seq()
+			st.mu.Lock()
+			st.lateReg = seq
+			st.mu.Unlock()
+			go func() {
+				for range events {
+				}
+				st.mu.Lock()
+				st.lateSubClosed = true
+				st.mu.Unlock()
+			}()
+		}()
+	}
 	if c.P("app_close", 0) == 1 {
 		after := c.P("app_close_after", 0)
 		go func() {
@@ -616,9 +654,26 @@ func (c11) Check(c *core.Case, env *core.Env, res zzsim.Result, v *core.Verdict)
 		if st.subsClosed != st.subs {
 			bad("subscription-not-closed", "%s: %d of %d subscription channels were closed", where, st.subsClosed, st.subs)
 		}
+		// whenever they were registered - before, after or while the
+		// connection was being lost - a callback runs once and a
+		// subscription channel is closed
+		if st.lateReg != 0 {
+			if st.lateReg > ff {
+				env.Probe("registration-after-the-loss-began")
+			}
+			if st.lateDisc != 1 {
+				bad("disconnect-callback/registered-at-some-moment", "%s: a disconnect callback registered at %d (the loss began at %d) ran %d times", where, st.lateReg, ff, st.lateDisc)
+			}
+			if !st.lateSubClosed {
+				bad("subscription-not-closed/registered-at-some-moment", "%s: the channel of a subscription handler registered at %d (the loss began at %d) was never closed", where, st.lateReg, ff)
+			}
+		}
 		st.mu.Unlock()
 	} else {
 		st.mu.Lock()
+		if st.lateDisc > 0 || st.lateSubClosed {
+			bad("disconnect-callback/spurious", "a disconnect callback ran (%d times) or a subscription channel was closed (%v) on a healthy connection", st.lateDisc, st.lateSubClosed)
+		}
 		if st.discClient > 0 || st.discProxy > 0 {
 			bad("disconnect-callback/spurious", "disconnect callbacks ran (%d, %d) on a healthy connection", st.discClient, st.discProxy)
 		}
